@@ -116,6 +116,16 @@ func (d *Drv) onEvent(slot int, spec *ObsSpec, h ecs.Entity, ptrs typed.Ptrs) {
 	if spec.Tuple >= 0 && id != ZeroE {
 		d.checkPtrs(h, TupleComps(spec.Tuple), ptrs, fmt.Sprintf("Observer%d callback", len(TupleComps(spec.Tuple))))
 	}
+	// lock state inside the callback (cheap, so not only in probes): locked during removal and batch callbacks,
+	// the caller's lock state otherwise
+	if !h.IsZero() || spec.Ev >= EvCustom0 {
+		wantLocked := spec.Ev.IsBefore() || x.LockedCb || d.M.Locks > 0
+		if d.W.IsLocked() != wantLocked {
+			d.viol("C09", "callback-lock-state", "observer %d (%v) during %s: IsLocked=%v, documented %v", slot, spec.Ev, x.Op.K, d.W.IsLocked(), wantLocked)
+		} else if wantLocked {
+			d.structuralRejected("observer callback")
+		}
+	}
 	if spec.Probe && !d.NoProbe && d.Headroom() {
 		d.probe(slot, spec, id, h)
 	}
@@ -475,6 +485,13 @@ func (d *Drv) Sweep(deep bool) {
 		}
 		if deep {
 			d.deepEntity(id, h, st)
+		}
+	}
+	// the component registry keeps what it said about every universe type (C18)
+	for c := 0; c < u.N; c++ {
+		info, ok := ecs.ComponentInfo(d.W, d.ID[c])
+		if !ok || info.Type != u.Types[c].RT || info.IsRelation != u.Types[c].IsRel || info.ID != d.ID[c] {
+			d.viol("C18", "component-info", "ComponentInfo(%s) = %+v ok=%v, registered as relation=%v", typeName(c), info, ok, u.Types[c].IsRel)
 		}
 	}
 	// resources behave as a map from type to value (C16: none survive Reset)
